@@ -2,6 +2,7 @@ package main
 
 import (
 	"fmt"
+	"strings"
 	"time"
 
 	fpgo "github.com/TeaEntityLab/fpGo/v2"
@@ -15,6 +16,8 @@ const (
 	replyYield = "yield"
 	replyLate  = "late"  // after 20 ms; the asker's timeout is 10 ms
 	replyNever = "never" // only for first-round requests (payload < 100)
+	// the effect hands a first-round ask to a helper goroutine, which replies after 20 ms (the effect itself returns at once)
+	replyHelperLate = "helper-late"
 )
 
 func answer(p int) int { return p*10 + 1 }
@@ -49,6 +52,14 @@ func askScenarioCh(n int, mode, reply string, second bool, own int, bound int) *
 					case replyLate:
 						time.Sleep(20 * time.Millisecond)
 					case replyNever:
+						return
+					case replyHelperLate:
+						vsched.Go(func() {
+							time.Sleep(20 * time.Millisecond)
+							vsched.Event("replying", p)
+							a.Reply(answer(p))
+							vsched.Event("replied", p)
+						})
 						return
 					}
 				}
@@ -94,6 +105,15 @@ func askScenarioCh(n int, mode, reply string, second bool, own int, bound int) *
 			fs := e1.Basic("C13", fam, r, nil)
 			if len(r.Panics) > 0 {
 				return fs
+			}
+			// Reply returns to its caller whatever became of the asker: what the effect (or a helper) does after
+			// Reply still happens
+			if len(fs) == 0 && r.Cap == "" {
+				for _, e := range r.Events {
+					if e.Kind == "replying" && e1.Count(r, "replied", e.Args[0]) != 1 {
+						fs = append(fs, e1.Fail("C13|"+fam+"|reply-did-not-return", "Reply for request %v did not return to the code that called it (what follows Reply in the effect was skipped)", e.Args[0]))
+					}
+				}
 			}
 			for i := 0; i < n; i++ {
 				ps := []int{i + 1}
@@ -312,13 +332,16 @@ func edgeScenario(kind string, bound int) *vsched.Scenario {
 			actor := fpgo.ActorNewGenerics(func(self *fpgo.ActorDef[interface{}], msg interface{}) {
 				a := msg.(*fpgo.AskDef[int, int])
 				vsched.Yield()
+				if strings.HasSuffix(kind, "-never") && a.Message == 1 {
+					return
+				}
 				a.Reply(answer(a.Message))
 			})
 			vsched.GoNamed("asker", func() {
 				switch kind {
-				case "timeout-zero", "timeout-negative":
+				case "timeout-zero", "timeout-negative", "timeout-zero-never", "timeout-negative-never":
 					d := time.Duration(0)
-					if kind == "timeout-negative" {
+					if strings.HasPrefix(kind, "timeout-negative") {
 						d = -time.Millisecond
 					}
 					v, err := fpgo.AskNewGenerics[int, int](1).AskOnceWithTimeout(actor, d)
@@ -345,7 +368,11 @@ func edgeScenario(kind string, bound int) *vsched.Scenario {
 				}
 				return fs
 			}
-			if e1.Count(r, "first", answer(1), true, false)+e1.Count(r, "first", 0, false, true) != 1 {
+			if strings.HasSuffix(kind, "-never") {
+				if e1.Count(r, "first", 0, false, true) != 1 {
+					fs = append(fs, e1.Fail("C13|"+fam+"|wrong-answer", "the ask with a timeout <= 0 that is never answered did not return (0, ErrActorAskTimeout): %v", r.Events))
+				}
+			} else if e1.Count(r, "first", answer(1), true, false)+e1.Count(r, "first", 0, false, true) != 1 {
 				fs = append(fs, e1.Fail("C13|"+fam+"|wrong-answer", "the ask with a timeout <= 0 returned neither its answer nor (0, ErrActorAskTimeout): %v", r.Events))
 			}
 			if e1.Count(r, "second", answer(2)) != 1 {
@@ -383,6 +410,9 @@ func scenarios(tier string) []*vsched.Scenario {
 			askScenario(n, "timeout", replyLate, true, bb),
 			askScenario(n, "timeout", replyNever, true, bb),
 		)
+		if n == 1 {
+			out = append(out, askScenario(n, "timeout", replyHelperLate, true, bb))
+		}
 		if n <= 2 {
 			for _, own := range []int{0, 1} {
 				out = append(out,
@@ -393,7 +423,8 @@ func scenarios(tier string) []*vsched.Scenario {
 		}
 	}
 	out = append(out, payloadReplies(0))
-	out = append(out, edgeScenario("timeout-zero", b), edgeScenario("timeout-negative", b), edgeScenario("ask-object-reused", b))
+	out = append(out, edgeScenario("timeout-zero", b), edgeScenario("timeout-negative", b), edgeScenario("ask-object-reused", b),
+		edgeScenario("timeout-zero-never", b), edgeScenario("timeout-negative-never", b))
 	out = append(out, askMethodScenario(2, false, b), askMethodScenario(2, true, b), askMethodScenarioF(2, false, true, b), askMethodScenarioF(2, true, true, b))
 	for _, pool := range []int{0, 1, 2} {
 		for _, lat := range [][]string{{"edge", "now"}, {"now", "edge", "now"}, {"late", "now"}, {"never", "now", "now"}} {
